@@ -280,17 +280,20 @@ def popThread (cs : CallStack) : Out CallStack :=
   if cs.canPopThread then .ok { cs with threads := cs.threads.dropLast }
   else .invalid "Can't pop thread"
 
+/-- `thread_counter.wrapping_add(1)` (`usize`, 64 bits) -/
+def nextThreadCounter (cs : CallStack) : Nat := (cs.threadCounter + 1) % 18446744073709551616
+
 /-- `push_thread` -/
 def pushThread (cs : CallStack) : CallStack :=
   match cs.currentThread with
-  | some t => { threads := cs.threads ++ [{ t with index := cs.threadCounter + 1 }],
-                threadCounter := cs.threadCounter + 1 }
+  | some t => { threads := cs.threads ++ [{ t with index := cs.nextThreadCounter }],
+                threadCounter := cs.nextThreadCounter }
   | none => cs
 
 /-- `fork_thread` -/
 def forkThread (cs : CallStack) : Option (CallStack × Thread) :=
   match cs.currentThread with
-  | some t => some ({ cs with threadCounter := cs.threadCounter + 1 }, { t with index := cs.threadCounter + 1 })
+  | some t => some ({ cs with threadCounter := cs.nextThreadCounter }, { t with index := cs.nextThreadCounter })
   | none => none
 
 def setCurrentThread (cs : CallStack) (t : Thread) : CallStack := { cs with threads := [t] }
@@ -316,12 +319,13 @@ def contextForVariableNamed (cs : CallStack) (name : String) : Int :=
   | some e => if alHas e.temps name then cs.currentElementIndex + 1 else 0
   | none => 0
 
-/-- `get_temporary_variable_with_name`; outer `none` = panic (bad context index). -/
-def getTemp (cs : CallStack) (name : String) (ctx : Int) : Option (Option Val) :=
+/-- `get_temporary_variable_with_name`: a context index that names no element of the
+    call stack finds nothing (`none` = not found). -/
+def getTemp (cs : CallStack) (name : String) (ctx : Int) : Option Val :=
   let ctx := if ctx == -1 then cs.currentElementIndex + 1 else ctx
   if ctx - 1 < 0 then none
   else match cs.elements[(ctx - 1).toNat]? with
-    | some e => some (alGet e.temps name)
+    | some e => alGet e.temps name
     | none => none
 
 def getThreadWithIndex (cs : CallStack) (i : Nat) : Option Thread := cs.threads.find? (fun t => t.index == i)
@@ -344,11 +348,15 @@ namespace CallStack
 /-- `set_temporary_variable` -/
 def setTemp (cs : CallStack) (name : String) (v : Val) (declareNew : Bool) (ctx : Int) : Out CallStack :=
   let ctx := if ctx == -1 then cs.currentElementIndex + 1 else ctx
-  if ctx - 1 < 0 then .panic "callstack.rs:set_temporary_variable"
+  -- a context index that names no element of the call stack
+  let noElement : Out CallStack :=
+    .invalid ("Could not find the call stack element " ++ intToString ctx
+      ++ " to set the temporary variable: " ++ name)
+  if ctx - 1 < 0 then noElement
   else
     let i := (ctx - 1).toNat
     match cs.elements[i]? with
-    | none => .panic "callstack.rs:set_temporary_variable"
+    | none => noElement
     | some e =>
       if !declareNew && !alHas e.temps name then
         .invalid ("Could not find temporary variable to set: " ++ name)
@@ -676,8 +684,8 @@ def findSingleItemList (defs : ListDefs) (name : String) : Option Val :=
         else acc) acc) none
     full
 
-/-- `get_raw_variable_with_name`; outer `none` = panic. -/
-def getRawVariable (defs : ListDefs) (s : Core) (name : String) (ctx : Int) : Option (Option Val) :=
+/-- `get_raw_variable_with_name` (`none` = not found). -/
+def getRawVariable (defs : ListDefs) (s : Core) (name : String) (ctx : Int) : Option Val :=
   let globalHit : Option Val :=
     if ctx == 0 || ctx == -1 then
       match s.vars.get name with
@@ -687,18 +695,22 @@ def getRawVariable (defs : ListDefs) (s : Core) (name : String) (ctx : Int) : Op
         | none => findSingleItemList defs name
     else none
   match globalHit with
-  | some v => some (some v)
+  | some v => some v
   | none => s.callstack.getTemp name ctx
 
-/-- `get_variable_with_name` (dereferences variable pointers; fuel bounds pointer chains). -/
-def getVariable (defs : ListDefs) (s : Core) (name : String) (ctx : Int) : Nat → Option (Option Val)
-  | 0 => some none
+/-- `MAX_POINTER_CHAIN`: the number of raw look-ups made along a chain of variable pointers. -/
+def maxPointerChain : Nat := 64
+
+/-- `get_variable_with_name` (dereferences variable pointers): the fuel is the number of raw
+    look-ups (`MAX_POINTER_CHAIN` in the Rust); if the last of them still yields a pointer,
+    nothing is found. -/
+def getVariable (defs : ListDefs) (s : Core) (name : String) (ctx : Int) : Nat → Option Val
+  | 0 => none
   | fuel + 1 =>
     match getRawVariable defs s name ctx with
     | none => none
-    | some none => some none
-    | some (some (.varptr n c)) => getVariable defs s n c fuel
-    | some (some v) => some (some v)
+    | some (.varptr n c) => getVariable defs s n c fuel
+    | some v => some v
 
 /-- `set_global`; returns the state and whether observers must be notified now. -/
 def setGlobal (s : Core) (name : String) (v : Val) : Core × Bool :=
@@ -709,43 +721,34 @@ def setGlobal (s : Core) (name : String) (v : Val) : Core × Bool :=
   ({ s with vars := vars' }, notify)
 
 /-- `resolve_variable_pointer` -/
-def resolveVariablePointer (defs : ListDefs) (s : Core) (name : String) (ci : Int) : Option Val :=
+def resolveVariablePointer (defs : ListDefs) (s : Core) (name : String) (ci : Int) : Val :=
   let ctx : Int := if ci == -1 then (if s.globalExists name then 0 else s.callstack.currentElementIndex) else ci
   match getRawVariable defs s name ctx with
-  | none => none
-  | some (some (.varptr n c)) => some (.varptr n c)
-  | some _ => some (.varptr name ctx)
+  | some (.varptr n c) => .varptr n c
+  | _ => .varptr name ctx
 
 /-- `VariablesState::assign` -/
 def assign (defs : ListDefs) (s : Core) (name : String) (isNew isGlobal : Bool) (value : Val) :
     Out Core :=
   if isNew then
-    let value' : Out Val := match value with
-      | .varptr n ci => match resolveVariablePointer defs s n ci with
-        | some v => .ok v
-        | none => .panic "callstack.rs:get_temporary_variable_with_name"
-      | v => .ok v
-    match value' with
-    | .ok v =>
-      if isGlobal then .ok (s.setGlobal name v).1
-      else match s.callstack.setTemp name v true (-1) with
-        | .ok cs => .ok (s.setCallstack cs)
-        | .err k m => .err k m
-        | .panic p => .panic p
-    | .err k m => .err k m
-    | .panic p => .panic p
+    let v : Val := match value with
+      | .varptr n ci => resolveVariablePointer defs s n ci
+      | v => v
+    if isGlobal then .ok (s.setGlobal name v).1
+    else match s.callstack.setTemp name v true (-1) with
+      | .ok cs => .ok (s.setCallstack cs)
+      | .err k m => .err k m
+      | .panic p => .panic p
   else
-    -- follow existing variable pointers
-    let rec deref : Nat → String → Int → Bool → Option (String × Int × Bool)
-      | 0, n, c, g => some (n, c, g)
+    -- follow existing variable pointers, `MAX_POINTER_CHAIN` of them at most
+    let rec deref : Nat → String → Int → Bool → String × Int × Bool
+      | 0, n, c, g => (n, c, g)
       | fuel + 1, n, c, g =>
         match getRawVariable defs s n c with
-        | none => none
-        | some (some (.varptr n' c')) => deref fuel n' c' (c' == 0)
-        | some _ => some (n, c, g)
-    match deref 64 name (-1) (s.globalExists name) with
-    | none => .panic "callstack.rs:get_temporary_variable_with_name"
-    | some (n, c, g) =>
+        | some (.varptr n' c') => deref fuel n' c' (c' == 0)
+        | _ => (n, c, g)
+    match deref maxPointerChain name (-1) (s.globalExists name) with
+    | (n, c, g) =>
       if g then .ok (s.setGlobal n value).1
       else match s.callstack.setTemp n value false c with
         | .ok cs => .ok (s.setCallstack cs)
@@ -766,8 +769,8 @@ def incrementVisitCount (root : Obj) (s : Core) (a : Addr) : Out Core :=
   match pathOf root a with
   | some p =>
     let key := String.ofList p.toText
-    -- i32 addition: overflow would be a debug panic; counts never get there
-    .ok { s with visitCounts := alSet s.visitCounts key ((alGet s.visitCounts key).getD 0 + 1) }
+    -- `count.wrapping_add(1)`
+    .ok { s with visitCounts := alSet s.visitCounts key (wrapI32 ((alGet s.visitCounts key).getD 0 + 1)) }
   | none => .panic "object.rs:get_path"
 
 def recordTurnIndexVisit (root : Obj) (s : Core) (a : Addr) : Out Core :=
